@@ -535,7 +535,7 @@ def draw_op(rng: random.Random, eng: C09Engine, weights: Dict[str, float]) -> Li
     tables = w.handles("table")
     if k == "add":
         pool = [h for h, d in m.items() if d["kind"] in ("table", "ref", "enum", "group", "sticky", "project")]
-        if db != dbs[0] and rng.random() < 0.4:
+        if db != dbs[0] and rng.random() < 0.6:
             # fill the second database with look-alikes of what the first one holds (two same-content databases)
             mirror = [h for h in pool if m[h].get("db") is None and m[h]["kind"] in ("table", "enum") and
                       any(w.strict(h) == w.strict(x) for x in m[dbs[0]][LISTS[m[h]["kind"]]])]
@@ -548,7 +548,7 @@ def draw_op(rng: random.Random, eng: C09Engine, weights: Dict[str, float]) -> Li
         contained = [h for h, d in m.items() if d.get("db") == db and d["kind"] != "db"]
         pool = [h for h, d in m.items() if d["kind"] in ("table", "ref", "enum", "group", "sticky", "project")]
         h = rng.choice(contained) if contained and rng.random() < 0.6 else rng.choice(pool)
-        if rng.random() < 0.15:
+        if rng.random() < 0.5:
             # an equal object that lives in ANOTHER database (the same schema loaded twice): only this database
             # may change, the other one keeps its element and the element its back pointer
             lookalikes = [x for x in pool if m[x].get("db") not in (None, db)
